@@ -343,9 +343,6 @@ def run(prog, tier) -> Result:
                    f"executing, but cls.{w.state} is first assigned in __init__: the write goes to the map inherited "
                    f"from the base class (Quantity), which then lists units of all types",
                    sig=f"cls.{w.state} mutated before it is initialised")
-    if n_mut < 1:
-        raise AnalysisError("R15.6: no mutation of a per-type map reachable from the metaclass __new__ found "
-                            "(1 confirmed on the pinned tree)")
 
     res.require("R15.1", 2)
     res.require("R15.5", 13)
